@@ -1017,7 +1017,9 @@ impl Tuple {
 
         // Write header
         let original_xmin = self.xmin();
-        let header = TupleHeader::new(old_version + 1, original_xmin, None);
+        // The version number is a label of the newest version (visibility is decided by the xmin/xmax
+        // stamps, never by this number), so it may wrap around after 255 updates instead of overflowing.
+        let header = TupleHeader::new(old_version.wrapping_add(1), original_xmin, None);
         cursor = header.write_to(buffer, cursor);
 
         // Write null bitmap for new values
